@@ -550,6 +550,7 @@ var parseLines = []string{
 	"/* π😀 */ item3: /* ж */ ident /* → */ num ;",
 	"'π' : ;",
 	"optuser: item itemopt ident identopt exprmain expropt ;",
+	"manyopt: ident? num? '+'? '-'? '('? ')'? ';'? 'π'? str? ident ;",
 	"exprmain: expr expropt ;",
 	"bad1: ident '😀😀z' num ;",
 	"bad2: \"é😀\" '𝒳' ident ;",
@@ -1524,6 +1525,9 @@ func (e *lsEngine) Run(src *sim.Src, log *sim.Log, res *sim.Result) {
 	}()
 	jsonrpc2.VerifBeforeWrite = nil
 	jsonrpc2.VerifWrapCtx = nil
+	if stray := strayBytes(); stray != "" && res.Violation == nil {
+		res.Fail("C23.I1", "stray-bytes-on-stdout", "the server process wrote %q to its standard output outside the protocol connection: in `textmapper ls` stdout IS the connection, so these bytes land between (or inside) frames", stray)
+	}
 	if deadlock != "" && res.Violation == nil {
 		res.Fail("C23.I6", "deadlock", "server goroutines blocked forever: %s", deadlock)
 	}
@@ -1978,8 +1982,34 @@ func (st *runState) fault(parkedNow []*parked) {
 
 // ---------------------------------------------------------------------------------
 
+// strayStdout is the file standing in for the process's standard output while the server
+// runs: the real `textmapper ls` speaks the protocol on stdout, so anything else the code
+// writes there (a stray fmt.Printf) lands in the middle of the frame stream.
+var strayStdout *os.File
+
+func strayBytes() string {
+	if strayStdout == nil {
+		return ""
+	}
+	st, err := strayStdout.Stat()
+	if err != nil || st.Size() == 0 {
+		return ""
+	}
+	b := make([]byte, min(st.Size(), 300))
+	strayStdout.ReadAt(b, 0)
+	strayStdout.Truncate(0)
+	strayStdout.Seek(0, 0)
+	return string(b)
+}
+
 func TestZZLSSim(t *testing.T) {
 	loadBaseGrammars()
+	sim.Out = os.Stdout
+	if f, err := os.CreateTemp("", "zzlssim-stdout."); err == nil {
+		os.Remove(f.Name())
+		strayStdout = f
+		os.Stdout = f
+	}
 	if devnull, err := os.OpenFile(os.DevNull, os.O_WRONLY, 0); err == nil {
 		os.Stderr = devnull // zap's development logger writes there
 	}
